@@ -216,7 +216,15 @@ class ModuleLoader:
 
             os.rename(fn, name)
             log.debug("compiling %s into byte-code..." % filename)
-            py_compile.compile(name)
+            try:
+                py_compile.compile(name)
+            except OSError:
+                # The byte-code file is an optimisation only.  Another
+                # process storing the same module can be in the middle of
+                # writing it (the temporary name that the standard
+                # library uses is not unique among forked workers), or
+                # the directory may not take it; the source is complete.
+                pass
 
             return self._load(base, name)
 
